@@ -184,6 +184,10 @@ func (t *tr) effectCall(ce *ast.CallExpr) ([]string, bool) {
 				parts = append(parts, leanIdent(m.Name))
 				continue
 			}
+			if code, ok := t.ptrArg7(id.Name, i, a, sig.params[i]); ok { // translate7.go: &x for a struct the callee only reads
+				parts = append(parts, code)
+				continue
+			}
 			parts = append(parts, t.as(a, t.expr(a), sig.params[i]))
 		}
 		r := t.bind(strings.Join(parts, " "))
